@@ -273,7 +273,7 @@ pub fn run(tier: &str, rec: &Recorder) -> RunOutput {
     let mut out = RunOutput::new("model_checking");
     let cap = wall_cap_s(tier);
     // (alphabet, depth, deep = one further C01 step on every result)
-    let stages: Vec<(&'static str, usize, bool)> = if tier == "quick" { vec![("mix2", 3, true), ("mix3", 2, false), ("mixn3", 3, false)] } else { vec![("mix2", 4, true), ("mix2", 5, false), ("mix3", 3, true), ("mix3", 4, false), ("mixn3", 4, false)] };
+    let stages: Vec<(&'static str, usize, bool)> = if tier == "quick" { vec![("mix2", 3, true), ("mix3", 2, false), ("mixn3", 3, false), ("sliceWA2", 3, false)] } else { vec![("mix2", 4, true), ("mix2", 5, false), ("mix3", 3, true), ("mix3", 4, false), ("mixn3", 4, false), ("sliceWA2", 5, false), ("mix2@alias", 4, false)] };
     let n_st = stages.len() as f64;
     let mut notes = vec![];
     let mut ex = true;
